@@ -114,7 +114,7 @@ func runHandle(cs string) string {
 			if len(f) != 4 {
 				return "bad-case"
 			}
-			rc := router.RuleConfig{Reverse: f[1] == "1", Reject: uint16(atoi(f[2]))}
+			rc := router.RuleConfig{Reverse: f[1] == "1", Reject: atoi(f[2])}
 			if f[0] != "*" && f[0][0] == 's' {
 				rc.Domain = f[0]
 			} else if f[0] != "*" {
@@ -344,7 +344,12 @@ func genHandle(r *rand.Rand, thorough bool, emit func(c, cat string)) {
 		}
 		if hasOpt {
 			g := &msgGen{r: r}
-			toks = append(toks, fmt.Sprintf("ar=-,41,%d,%d,raw,%s", []int{512, 1232, 4096, 100}[r.Intn(4)], []uint32{0, 0x8000, 0x01008000}[r.Intn(3)], hexs(g.optData())))
+			sec := "ar"
+			if r.Intn(12) == 0 { // an OPT record that is not where it belongs
+				sec = []string{"ns", "an"}[r.Intn(2)]
+				cat += "-misplaced"
+			}
+			toks = append(toks, fmt.Sprintf("%s=-,41,%d,%d,raw,%s", sec, []int{512, 1232, 4096, 100}[r.Intn(4)], []uint32{0, 0x8000, 0x01008000}[r.Intn(3)], hexs(g.optData())))
 			cat += "-opt"
 		}
 		// upstream outcomes
@@ -382,6 +387,10 @@ func genHandle(r *rand.Rand, thorough bool, emit func(c, cat string)) {
 				}
 				if r.Intn(4) == 0 {
 					toks = append(toks, fmt.Sprintf("%sns=%s,2,1,300,name,%s", p, hexs(handleNames[0]), hexs(handleNames[4])))
+				}
+				if r.Intn(10) == 0 { // an upstream OPT outside the additional section: must not be relayed either
+					g := &msgGen{r: r}
+					toks = append(toks, fmt.Sprintf("%s%s=-,41,4096,0,raw,%s", p, []string{"ns", "an"}[r.Intn(2)], hexs(g.optData())))
 				}
 				if r.Intn(2) == 0 { // upstream OPT with options: must not be relayed
 					g := &msgGen{r: r}
